@@ -182,8 +182,29 @@ def run(prog, ctx):
     rets = [r for r in f.returns() if cfg.block_of(r) in region]
     consts = set(query.returned_constant(r) for r in rets)
     reaches_next = any(s == hb and b in region and (b, i) not in match_edges for (b, i, s) in cfg.edges())
+    # the same through a status variable: `else ret = ECONF_OPTION_NOT_FOUND;` and a loop that runs `while (ret == ECONF_SUCCESS && ..)`:
+    # what can a call return on the consistent paths that start with an item matching no name?
+    vals3 = set()
+    if not (consts == {"ECONF_OPTION_NOT_FOUND"} and not reaches_next):
+        def acc3(b, fd):
+            for n3 in cfg.blocks[b].elems:
+                if n3.k == "ReturnStmt" and not n3.j.get("inlined_return"):
+                    if n3.children:
+                        e3 = n3.children[0]
+                        cv3 = e3.const_value()
+                        vals3.add(cv3 if cv3 is not None else fd.get("=" + render(e3)))
+                    else:
+                        vals3.add(None)
+            return False
+        try:
+            cfg.feasible_reach(None, lambda lit, b, i: (b, i) in match_edges, lambda a: True, start=body_entry, accept=acc3)
+        except Inconclusive:
+            vals3 = {None}
+    nf3 = prog.enumerators.get("ECONF_OPTION_NOT_FOUND")
     if consts == {"ECONF_OPTION_NOT_FOUND"} and not reaches_next:
         ctx.ok("O3", "an unknown item is refused", rets[0].where, "the path on which no name matches returns ECONF_OPTION_NOT_FOUND")
+    elif vals3 and vals3 <= {nf3, prog.enumerators.get("ECONF_NOMEM")} and nf3 in vals3:
+        ctx.ok("O3", "an unknown item is refused", f.where, "every consistent path that starts with an item matching no name ends in a return of ECONF_OPTION_NOT_FOUND")
     else:
         ctx.fail("O3", "an unknown item is refused", f.where,
                  "an item matching none of the names %s" % ("is skipped and the next token is read (returns success)" if reaches_next else "returns %s" % sorted(str(c) for c in consts)),
@@ -314,8 +335,13 @@ def run(prog, ctx):
             if ok_shape is None:
                 ctx.inconclusive("O7", "the join pass visits every later definition of a key", jf.where, "outer loop over %s->file_entry not recognised" % obj)
             else:
-                early = [x for x in inner[0].child("body").walk() if x.k in ("BreakStmt", "GotoStmt") or (x.k == "ReturnStmt" and query.returned_constant(x) != "ECONF_NOMEM")]
+                early = [x for x in inner[0].child("body").walk() if x.k in ("BreakStmt", "GotoStmt") or (
+                    x.k == "ReturnStmt" and not x.j.get("inlined_return") and query.returned_constant(x) != "ECONF_NOMEM")]
                 early = [x for x in early if not any(a.k in LOOPK + ("SwitchStmt",) and a is not inner[0] and a.within(inner[0]) for a in x.ancestors())]
+                # `return error;` that can only carry ECONF_NOMEM (the status of a helper that allocates) is the out-of-memory exit as well
+                nomem = prog.enumerators.get("ECONF_NOMEM")
+                early = [x for x in early if not (x.k == "ReturnStmt" and x.children and x.children[0].strip().k == "DeclRefExpr"
+                                                  and jf.cfg.values_at_return(x) <= {nomem})]
                 if ok_shape and not early:
                     ctx.ok("O7", "the join pass visits every later definition of a key", inner[0].where, "%s; no early exit" % desc)
                 elif not ok_shape:
